@@ -34,7 +34,8 @@ struct C18 : drv::Harness
 			// begin/end selectors: 0 = 1, 1 = first stored, 2 = inside a gap, 3 = last stored, 4 = latest, 5 = random, 6 = zero (E: to the latest; B: invalid)
 			// a request that begins beyond the latest number sent (unusual; its own answer is not judged) must not spoil later requests
 			if (rng.chance(0.12)) { p.ops.push_back(Op("prr", { 7, rng.pick(std::vector<int64_t>{ 6, 7 }), (int64_t)(rng.next() >> 3), 0 })); if (rng.chance(0.5)) p.ops.push_back(Op("app")); }
-			p.ops.push_back(Op("prr", { rng.pick(std::vector<int64_t>{ 0, 1, 2, 3, 4, 5, 5, 5 }), rng.pick(std::vector<int64_t>{ 6, 6, 1, 2, 3, 4, 5, 5 }), (int64_t)(rng.next() >> 3), rng.chance(0.05) }));
+			// arg4 = k > 0: an application thread sends a new message k scheduling points into the answer
+			p.ops.push_back(Op("prr", { rng.pick(std::vector<int64_t>{ 0, 1, 2, 3, 4, 5, 5, 5 }), rng.pick(std::vector<int64_t>{ 6, 6, 1, 2, 3, 4, 5, 5 }), (int64_t)(rng.next() >> 3), rng.chance(0.05), rng.chance(0.2) ? rng.range(1, 60) : 0 }));
 			if (rng.chance(0.8)) p.ops.push_back(Op("app"));
 			if (rng.chance(0.3)) p.ops.push_back(Op("ptest"));
 		}
@@ -102,6 +103,13 @@ struct C18 : drv::Harness
 				++requests;
 				sim::trace("REQUEST resend " + std::to_string(B) + ".." + std::to_string(E) + " latest=" + std::to_string(latest));
 				w.peer.send_msg("2", { {7, std::to_string(B)}, {16, std::to_string(E)} });
+				bool raced = false;
+				if (op.arg(4) > 0 && !invalid && B <= latest && w.pers && w.pm != pm_coro)
+				{
+					int seen = 0; const int after = (int)op.arg(4);
+					if (sim::settle_watch([&]() { return w.alive() && w.ses->st() == States::st_resend_request_received && ++seen >= after; }, 50000000ll))
+					{ raced = w.app_send(w.next_app_id("R")); if (raced) sim::count("send_inside_resend_answer"); }
+				}
 				w.settle();
 				if (!invalid && B > latest) { sim::count("request_beyond_latest"); scan_new(); continue; }   // numbers never sent: the answer is not judged
 				std::string ctx = "ResendRequest(" + std::to_string(B) + "," + std::to_string(E) + ") with latest=" + std::to_string(latest) + " stored={";
@@ -145,7 +153,7 @@ struct C18 : drv::Harness
 					if (rm->get(122) != o.stime) r.fail("replay_origsendingtime", fam, ctx + "replay of " + std::to_string(e.seq) + " has OrigSendingTime '" + rm->get(122) + "' but the original SendingTime was '" + o.stime + "'");
 					if (rm->body() != o.body) r.fail("replay_body_differs", fam, ctx + "replay of " + std::to_string(e.seq) + " has a different body");
 				}
-				for (auto& m : ans) if (!m.gapfill()) { bool ok = false; for (auto& e : exp) if (!e.gap && e.seq == m.num(34)) ok = true; if (!ok) r.fail("unexpected_replay", fam, ctx + "message " + std::to_string(m.num(34)) + " was replayed but is not a stored message of the requested range" + tail); }
+				for (auto& m : ans) if (!m.gapfill()) { bool ok = false; for (auto& e : exp) if (!e.gap && e.seq == m.num(34)) ok = true; if (raced && m.num(34) == latest + 1) ok = true; /* the message sent during the answer may be part of it */ if (!ok) r.fail("unexpected_replay", fam, ctx + "message " + std::to_string(m.num(34)) + " was replayed but is not a stored message of the requested range" + tail); }
 				// (3) gaps covered by GapFills that start at the first number of the gap and end right after it
 				for (auto& e : exp)
 				{
@@ -168,7 +176,7 @@ struct C18 : drv::Harness
 				announced = -1; for (auto& m : ans) if (m.gapfill()) announced = m.num(36);
 				if (w.ses->st() == States::st_resend_request_received) r.fail("stuck_after_resend", fam, ctx + "session state is " + std::string(state_name((int)w.ses->st())) + " after answering");
 				// (4) continuation
-				long expect_next = latest + 1; for (auto& m : ans) if (m.gapfill() && m.num(36) > expect_next) expect_next = m.num(36);   // continue from the last NewSeqNo announced
+				long expect_next = latest + 1 + (raced ? 1 : 0); for (auto& m : ans) if (m.gapfill() && m.num(36) > expect_next) expect_next = m.num(36);   // continue from the last NewSeqNo announced
 				if (r.v.empty() && (long)w.ses->nss() != expect_next) r.fail("continuation_wrong", fam, ctx + "after the answer the session's next new number is " + std::to_string(w.ses->nss()) + " expected " + std::to_string(expect_next) + tail);
 				scan_new();
 				continue;
